@@ -7,7 +7,7 @@ import GoDcp.Spec.C20
   ao-race <script> <D> <a> res=… cancel=… time=… resolve=…   racy script; real = `racy` (the Go side only checked: returned, no panic);
                                                               the observation travels in the op and is checked here for membership
   ao-double resolve2=<ok|blocked|panic>                       two `Resolve()` without a waiter (documentation); real = `documented`
-  ao-site <file>:<func>                                       go/ast fact pass over the wrapper call sites; real = fact line | `unknown`
+  ao-site <file>:<func>                                       go/ast fact pass over the wrapper call sites; real = (fact line | `unknown`) + ` scope=…`
 -/
 namespace GoDcp.Driver
 namespace AO   -- helpers live in their own namespace: helper names of other slices cannot clash
@@ -104,20 +104,27 @@ def hAoDouble (args : List String) (real : Option String) : Option Out := do
     | some _ => verdict (holdsDouble r) "C20.no-panic-or-hang"
   some { model := "documented", verdict := v }
 
-/-- `ao-site <file>:<func>`: the wrapper table answers.  `unknown` (shape not recognised by the
-    fact pass) is accepted; a call site that is not in the table must have the generic shape
-    the theorems are proved for (buffered, read after Wait, error propagated, some ctx deadline) -/
+/-- `ao-site <file>:<func>`: the wrapper table answers; real = `<facts> scope=<s>` | `unknown scope=<s>`.
+    `unknown` (shape not recognised by the fact pass) is accepted for the shape facts, but the SCOPE
+    fact (is the asyncOp created inside the closure / loop body that issues the request?) is answered
+    from the table in every case: a hoisted `NewAsyncOp` shows as `scope=shared` against the table.
+    A call site that is not in the table must have the generic shape the theorems are proved for
+    (buffered, read after Wait, error propagated, some ctx deadline, asyncOp not shared). -/
 def hAoSite (args : List String) (real : Option String) : Option Out := do
   let [site] := args | none
-  let model := match real with
-    | some "unknown" => "unknown"
-    | _ => match lookupSite site with
-      | some w => w.factLine
-      | none =>
-        let d := match real.bind fun r => kv (toks r) "deadline" with
-          | some "none" | none => "<some-ctx-deadline>"
-          | some d => d
-        s!"buffered=1 readsAfterWait=1 propagatesErr=1 deadline={d}"
+  let rt := (real.map toks).getD []
+  let unknown := rt.head? == some "unknown"
+  let model := match lookupSite site with
+    | some w => if unknown then s!"unknown scope={w.scope.show}" else w.factLine
+    | none =>
+      let sc := match kv rt "scope" with
+        | some "single" => "single"
+        | _ => "per-request"
+      if unknown then s!"unknown scope={sc}" else
+      let d := match kv rt "deadline" with
+        | some "none" | none => "<some-ctx-deadline>"
+        | some d => d
+      s!"buffered=1 readsAfterWait=1 propagatesErr=1 deadline={d} scope={sc}"
   some { model }
 
 end AO
